@@ -411,7 +411,7 @@ def check_extended(chk) -> None:
     # rows: every append of a pair to a row is a guarded insert; a new row registers both residues
     pl = [l for l in lw.body if isinstance(l, ast.For) and norm(l.iter) == "self.base_pairs"]
     if len(pl) != 1 or not isinstance(pl[0].target, ast.Name):
-        chk.error("matching-typestate", fi.site(lw), "loop over self.base_pairs not found")
+        chk.error("row-typestate", fi.site(lw), "loop over self.base_pairs not found")
         return
     x = pl[0].target.id
     sel = [g for g in ast.walk(pl[0]) if isinstance(g, ast.If) and flat(g.test) == flat(f"{x}.lw == {c} and {x}.nt1 < {x}.nt2")]
@@ -442,13 +442,13 @@ def check_extended(chk) -> None:
                 both = any((astq.match(g.test, f"{x}.nt2 not in {u}") is not None and g.polarity) or (astq.match(g.test, f"{x}.nt2 in {u}") is not None and not g.polarity) for g in fs)
                 adds = flat(f"{u}.add({x}.nt1)") in sib and flat(f"{u}.add({x}.nt2)") in sib
                 ok = ok or (both and adds)
-            chk.expect(ok, "matching-typestate", fi.site(a), f"`{norm(a)}` is a guarded insert: both residues tested against, and added to, one set", f"`{norm(a)}` puts a pair into a row without testing both of its residues against the row's used-set (and recording them): the row is not a matching, __generate_bpseq overwrites partners and pairs vanish", K(fi, f"append:{norm(a.func.value)}"))
+            chk.expect(ok, "row-typestate", fi.site(a), f"`{norm(a)}` is a guarded insert: both residues tested against, and added to, one set", f"`{norm(a)}` puts a pair into a row without testing both of its residues against the row's used-set (and recording them): the row is not a matching, __generate_bpseq overwrites partners and pairs vanish", K(fi, f"append:{norm(a.func.value)}"))
         elif isinstance(arg, ast.List) and len(arg.elts) == 1 and norm(arg.elts[0]) == x:
             n_app += 1
             ok = any(t2.startswith(flat("used_per_row.append(")) and flat(f"{x}.nt1") in t2 and flat(f"{x}.nt2") in t2 for t2 in sib) or any(".append{" in t2 and flat(f"{x}.nt1") in t2 and flat(f"{x}.nt2") in t2 for t2 in sib)
-            chk.expect(ok, "matching-typestate", fi.site(a), "a new row starts with its pair and a used-set holding both residues", f"a new row `{norm(a)}` is opened without registering both residues of its first pair", K(fi, "new-row"))
+            chk.expect(ok, "row-typestate", fi.site(a), "a new row starts with its pair and a used-set holding both residues", f"a new row `{norm(a)}` is opened without registering both residues of its first pair", K(fi, "new-row"))
     if n_app == 0:
-        chk.error("matching-typestate", fi.site(pl[0]), "no append of a pair to a row found (row construction idiom not recognised)")
+        chk.error("row-typestate", fi.site(pl[0]), "no append of a pair to a row found (row construction idiom not recognised)")
     rl = [l for l in lw.body if isinstance(l, ast.For) and any(isinstance(c2, ast.Call) and astq.callee_name(c2).endswith("__generate_bpseq") for c2 in ast.walk(l))]
     ok = False
     if len(rl) == 1 and isinstance(rl[0].target, ast.Name):
@@ -472,13 +472,13 @@ def run(chk) -> None:
     )
     chk.trusted = ["CPython ast", "BpSeq.dot_bracket is lossless (C01/C02/C13)"]
     chk.assumptions = ["which pair survives a conflict is not decided beyond the scoring key", "text equality end to end is not decided"]
-    chk.robust |= {"lifting-guarded-insert", "lifting-dangling", "lw-reverse", "gap-rule-agree", "removal-under-conflict"}
+    chk.robust |= {"lifting-guarded-insert", "lifting-dangling", "lw-reverse", "gap-rule-agree", "removal-under-conflict", "row-typestate"}
     check_lifting(chk)
     check_bpseq_matching(chk)
     check_numbering(chk)
     check_slicing(chk)
     check_extended(chk)
-    for rule, n in (("matching-typestate", 5), ("lifting-guarded-insert", 4), ("gap-rule-agree", 4), ("lw-reverse", 1), ("numbering", 2), ("strand-slices", 1), ("symmetric-pairs", 1)):
+    for rule, n in (("matching-typestate", 2), ("row-typestate", 2), ("lifting-guarded-insert", 4), ("gap-rule-agree", 4), ("lw-reverse", 1), ("numbering", 2), ("strand-slices", 1), ("symmetric-pairs", 1)):
         chk.floor(rule, n)
 
 
